@@ -23,7 +23,7 @@ PROPS = {
     'C03': {
         'ek': [{'crate': 'gneiss-mqtt', 'harnesses': [{'name': h, 'kind': 'complete', 'fn': 'TryFrom<u8>', 'expect_stub': True} for h in TBL]}],
         'level': 'proof',
-        'technique': 'Kani loop-free full-domain harnesses (reason-code tables) + Verus contracts on decoder primitives',
+        'technique': 'Verus function contracts on the extracted decoder functions against a spec function written from the OASIS tables + Kani loop-free full-domain harnesses (reason-code tables)',
         'design_ref': 'DESIGN.md 3/C03',
         'level_text': 'Complete (all 256 inputs, loop-free) proofs that every reason code the OASIS tables allow decodes to the code with that wire value.',
         'level_note': 'Trusted: Kani 0.68/CBMC 6.11; alloc::fmt::format stubbed (message text only).',
@@ -93,7 +93,11 @@ CWR = ['cwr_publish_result', 'cwr_subscribe_result', 'cwr_unsubscribe_result', '
 
 PROPS['C03']['ev'] = ['codec']
 PROPS['C03']['level_text'] += (' Plus unbounded Verus proofs of decode_vli (framing and value), and of the frame decoder steps: one header byte consumed per step, '
-                               'a packet whose announced size exceeds the maximum in force is rejected when its length field completes, before any body byte is buffered.')
+                               'a packet whose announced size exceeds the maximum in force is rejected when its length field completes, before any body byte is buffered; '
+                               'of the bounds-checked primitive readers; and of CONNACK and PUBLISH decoding (property sections and whole packet bodies, MQTT 5 and 3.1.1) against a '
+                               'specification written from the OASIS tables (generic property-section parser, allowed identifiers per packet, reason codes, VBI framing, header flags): '
+                               'exactly the legal byte strings are accepted, every value lands in the right field, for all inputs. The other server packets, chunking invariance and '
+                               'hostile streams are bounded (E-B, independent reference encoder).')
 PROPS['C03']['level_note'] += ' ' + TRUST_COMMON
 PROPS.update({
     'C02': _ev(['codec', 'validate'], 'Unbounded proofs that encode_vli appends exactly the Variable Byte Integer of the value (spec function written from OASIS 1.5.5), that the size function equals its length, '
